@@ -551,7 +551,8 @@ Next ==
           \/ \E f \in {"op", "inst"} : \E r \in PlainRows(f) : \E a \in Args(r) :
                EncodeOne(f, Item(r.n, a, <<>>), order, psz)
           \* every operation with every boundary operand, nested in a block
-          \/ \E r \in PlainRows("op") : \E a \in Args(r) :
+          \/ /\ <<order, psz>> \in StreamConfigs
+             /\ \E r \in PlainRows("op") : \E a \in Args(r) :
                EncodeOne("inst", Item("DW_CFA_def_cfa_expression", <<>>, <<Item(r.n, a, <<>>)>>),
                          order, psz)
           \/ \E x \in SmallBlockInsts : EncodeOne("inst", x, order, psz)
